@@ -36,32 +36,35 @@ def dirMisordered (p : Proc) (dir : Nat) : Bool :=
 def firesOpen (c : Cfg) (p : Proc) (dir : Nat) : List String :=
   let l := dirFiles p dir
   (if l.any (fun (_, fs) => fileHasHole c fs) then ["scanStopsAtEmptyBlock"] else []) ++
-  (if l.any (fun (_, fs) => fileHasMultiUnit c fs) then ["multiUnitBlockScan"] else []) ++
   (if dirMisordered p dir then ["clockRegressionReordersFiles"] else [])
 
-/-- the operation creates the topic's writer (allocating its first block) without writing
-anything into it: a rejected or empty first operation -/
+/-- number of allocated-but-empty blocks of a topic: sealed with `used = 0`, or an active block
+nothing was written into -/
+def emptyBlocks (i : Inst) (t : Topic) : Nat :=
+  ((i.reader t).chain.filter fun b => b.used == 0).length +
+    (match i.writers.get? t with
+     | some w => if w.off == 0 then 1 else 0
+     | none => 0)
+
+/-- the operation leaves an allocated block empty: a rejected or empty first operation on a topic,
+or a first entry that does not fit the topic's freshly allocated standard block (the block is
+sealed empty and a larger one is allocated).  The recovery scan cannot tell such a block from
+unallocated space: it stops scanning the file there and numbers later blocks differently. -/
 def leavesEmptyBlock (c : Cfg) (p : Proc) (op : Op) (t : Topic) : Bool :=
-  match p.inst with
-  | none => false
-  | some i =>
-    (i.writers.get? t).isNone &&
-      match (step c p op).1.inst with
-      | some i' => match i'.writers.get? t with
-        | some w => w.off == 0
-        | none => false
-      | none => false
+  match p.inst, (step c p op).1.inst with
+  | some i, some i' => decide (emptyBlocks i' t > emptyBlocks i t)
+  | _, _ => false
 
 def fires (c : Cfg) (p : Proc) (op : Op) : List String :=
   match op with
   | .open_ _ => firesOpen c p 0
   | .append t pay =>
     (if c.metaSz + pay.len > c.maxAlloc then ["sealThenAllocFail"] else []) ++
-    (if leavesEmptyBlock c p op t then ["writerBeforeValidation"] else [])
+    (if leavesEmptyBlock c p op t then ["emptyBlockAllocated"] else [])
   | .batch t ps =>
     (if ps.length ≤ c.cap ∧ (ps.map fun x => c.metaSz + x.len).sum ≤ c.maxBatchBytes ∧ !t.long ∧
         ps.any (fun x => decide (c.metaSz + x.len > c.maxAlloc)) then ["sealThenAllocFail"] else []) ++
-    (if leavesEmptyBlock c p op t then ["writerBeforeValidation"] else [])
+    (if leavesEmptyBlock c p op t then ["emptyBlockAllocated"] else [])
   | _ => []
 
 end WalrusVerif.Eng
